@@ -253,6 +253,26 @@ Proof.
 Qed.
 
 (* S25: ready although the FSM has applied nothing of what was queued *)
+(* whatever the schedule (no assumption on how the cluster got here): a member that is ready as peer p, p no initial member,
+   has the add entry of p within the prefix of the log it has RECEIVED *)
+Lemma ready_needs_own_add_entry_l init cl p m :
+  memN p init = false -> ready init cl p m = true ->
+  exists ia, (ia < m_recv m)%nat /\ nth_error (mlog cl) ia = Some (EAdd p).
+Proof.
+  intros Hi Hr. unfold ready in Hr. apply andb_true_iff in Hr. destruct Hr as [Hm _].
+  unfold report in Hm. apply member_was_added in Hm; auto.
+  destruct (In_nth_error _ _ Hm) as [ia Hia]. apply nth_error_firstn in Hia. destruct Hia as [Hlt Hnth].
+  exists ia. split; assumption.
+Qed.
+(* hence a joiner that has received fewer entries than the index of its add entry is not ready, whatever it has applied *)
+Lemma lagging_joiner_not_ready_l init cl p m ia :
+  memN p init = false -> nth_error (mlog cl) ia = Some (EAdd p) ->
+  (forall ib, nth_error (mlog cl) ib = Some (EAdd p) -> ib = ia) -> (m_recv m <= ia)%nat -> ready init cl p m = false.
+Proof.
+  intros Hi Ha Hu Hl. destruct (ready init cl p m) eqn:R; auto.
+  destruct (ready_needs_own_add_entry_l init cl p m Hi R) as [ib [Hlt Hb]]. specialize (Hu ib Hb). lia.
+Qed.
+
 Definition early_ready : list cevent :=
   [CAppend (EOp (LPin (wpin 0 1))); CAppend (EAdd 1); CRecv 1; CRecv 1; CQueue 1; CQueue 1].
 Lemma joiner_ready_refuted_l :
